@@ -3,6 +3,7 @@
 package exif2
 
 import (
+	"bytes"
 	"time"
 
 	"github.com/evanoberholster/imagemeta/exif2/ifds"
@@ -47,4 +48,29 @@ func VerifTimeZoneCacheLen() int {
 	mutexTimeZones.RLock()
 	defer mutexTimeZones.RUnlock()
 	return len(cacheTimeZone)
+}
+
+// VerifRawOps runs the reader's two stream primitives on a plain (non-bufio) reader whose pooled scratch
+// buffer was filled from fill beforehand: op > 0 is fastRead(op), op <= 0 is discard(-op). For each op it
+// returns a copy of the bytes handed out, the error, and the reader's position afterwards.
+func VerifRawOps(stream []byte, exifLength uint32, ops []int, fill byte) (outs [][]byte, errs []error, pos []uint32) {
+	ir := NewIfdReader(Logger)
+	defer ir.Close()
+	for i := range ir.buffer.buf {
+		ir.buffer.buf[i] = fill + byte(i*3)
+	}
+	ir.ResetReader(bytes.NewReader(stream))
+	ir.exifLength = exifLength
+	for _, op := range ops {
+		if op > 0 {
+			b, err := ir.fastRead(op)
+			outs = append(outs, append([]byte{}, b...))
+			errs = append(errs, err)
+		} else {
+			outs = append(outs, nil)
+			errs = append(errs, ir.discard(-op))
+		}
+		pos = append(pos, ir.po)
+	}
+	return
 }
